@@ -499,7 +499,7 @@ def match_known(known, prop, harness, failed, site=""):
 
 def write_evidence(prop, tier, seed, harnesses, verdicts, states, wall, notes,
                    violations, known_hits, problems):
-    path = os.path.join(VERIF, "evidence", "%s.json" % prop)
+    path = os.path.join(os.environ.get("VERIF_EVIDENCE_DIR", os.path.join(VERIF, "evidence")), "%s.json" % prop)
     os.makedirs(os.path.dirname(path), exist_ok=True)
     per = []
     total = success = 0
@@ -686,7 +686,7 @@ def run_check(prop, tier, only, keep, jobs):
                                   "counterexample does not reproduce natively (stub/harness artefact?): " + why)
                 continue
             k = match_known(known, prop, h.name, v["failed"], outcome.get("site", ""))
-            rdir = os.path.join(VERIF, "replays", prop)
+            rdir = os.path.join(os.environ.get("VERIF_REPLAY_DIR", os.path.join(VERIF, "replays")), prop)
             os.makedirs(rdir, exist_ok=True)
             rpath = os.path.join(rdir, h.name + ".json")
             with open(rpath, "w") as f:
